@@ -7,6 +7,7 @@
 package c07
 
 import (
+	"flag"
 	"fmt"
 	"os"
 	"sort"
@@ -19,7 +20,11 @@ import (
 	"pgregory.net/rapid"
 )
 
-func TestMain(m *testing.M) { evid.Main(m, "C07") }
+func TestMain(m *testing.M) {
+	// the text-level reduction of a violation is done on replay; keep rapid's own shrinking short
+	_ = flag.Set("rapid.shrinktime", "10s")
+	evid.Main(m, "C07")
+}
 
 func protoTextMarshal(m proto.Message) string {
 	return prototext.MarshalOptions{Multiline: true, Indent: " "}.Format(m)
@@ -70,7 +75,9 @@ func TestReplay(t *testing.T) {
 	}
 	r.Eval()
 	if v.Key != "" {
-		r.Fail(t, v.Key, v.Msg, &c)
+		// a replay also prints a delta-debugged reproduction (same key, still inside the domain)
+		m := minimize(&c, v.Key, 3000)
+		r.Fail(t, v.Key, fmt.Sprintf("reduced reproduction (%d bytes):\n%s\n--- on the saved case: %s", len(m), m, v.Msg), &c)
 	}
 }
 
